@@ -226,6 +226,7 @@ func c04Succ(r *core.Run) {
 		})
 	}
 	r.Floor("C04.SUCC", "stores of ZipperArtifacts.Preserved", n, 1)
+	c04BlockMap(r)
 }
 
 func c04Sentinel(r *core.Run) {
@@ -605,4 +606,93 @@ func c04Pres(r *core.Run) {
 		})
 	}
 	r.Floor("C04.PRES", "stores of status 'preserved'", m, 2)
+}
+
+
+// c04BlockMap: the block correspondence that the successor comparison works on is derived from the matched
+// instructions; a matched instruction may be left out of it only for one of the enumerated reasons. Any other
+// skip (for instance of terminators) removes exactly the blocks whose only matched instruction is the branch,
+// and the exchange of that branch's arms is no longer seen.
+func c04BlockMap(r *core.Run) {
+	p := r.P
+	n := 0
+	isBlock := func(t types.Type) bool { return strings.HasSuffix(t.String(), "ssa.BasicBlock") }
+	for _, fn := range p.FuncsIn("pkg/diff") {
+		if !readsSuccs(p, fn, 0) {
+			continue
+		}
+		var upd *ssa.MapUpdate
+		core.InstrsOf(fn, func(in ssa.Instruction) {
+			if mu, ok := in.(*ssa.MapUpdate); ok && upd == nil && isBlock(mu.Key.Type()) && isBlock(mu.Value.Type()) {
+				upd = mu
+			}
+		})
+		if upd == nil {
+			continue
+		}
+		h := core.LoopHeaderOf(upd.Block())
+		if h == nil {
+			continue
+		}
+		n++
+		fnm := core.FuncName(fn)
+		back := backEdges(fn)
+		allowed := func(cond ssa.Value) (string, bool) {
+			base, _ := core.StripNot(cond)
+			if ex, ok := base.(*ssa.Extract); ok && ex.Index == 1 {
+				if lk, ok := ex.Tuple.(*ssa.Lookup); ok {
+					if _, isM := core.FieldLoad(lk.X, "instrMap"); isM {
+						return "instruction is unmatched", true
+					}
+				}
+			}
+			if x, _, ok := core.NilCompare(cond); ok {
+				if c, ok := x.(*ssa.Call); ok && c.Call.IsInvoke() && c.Call.Method.Name() == "Block" {
+					return "instruction has no block", true
+				}
+			}
+			if op, a, b, _, ok := core.Compare(base); ok && (op == token.EQL || op == token.NEQ) {
+				if ln, isLen := isBuiltinCall(a, "len"); isLen {
+					if c, ok := ln.Call.Args[0].(*ssa.Call); ok && c.Call.IsInvoke() && c.Call.Method.Name() == "Operands" {
+						if k, isC := core.ConstInt(b); isC && k == 0 {
+							return "instruction has no operands", true
+						}
+					}
+				}
+			}
+			return "", false
+		}
+		for _, b := range fn.Blocks {
+			if len(b.Instrs) == 0 || b == h || !h.Dominates(b) || core.LoopHeaderOf(b) == nil {
+				continue
+			}
+			ifi, ok := b.Instrs[len(b.Instrs)-1].(*ssa.If)
+			if !ok || !core.ReachAvoiding(b, back)[upd.Block()] {
+				continue
+			}
+			// a skip: an edge from which the recording is unreachable within this iteration, but the loop goes on
+			for i, sc := range b.Succs {
+				goesOn := back[core.Edge{From: b, Idx: i}]
+				if !goesOn && core.ReachAvoiding(sc, back)[upd.Block()] {
+					continue
+				}
+				for bb := range core.ReachAvoiding(sc, back) {
+					if goesOn {
+						break
+					}
+					for k := range bb.Succs {
+						if back[core.Edge{From: bb, Idx: k}] {
+							goesOn = true
+						}
+					}
+				}
+				if !goesOn {
+					continue // leads out of the function (verdict false)
+				}
+				what, ok := allowed(ifi.Cond)
+				r.Check(ok, "C04.SUCC", fnm+"#block-map-skip("+shape(ifi.Cond, 0)+")", ifi.Pos(), "matched instruction left out of the block correspondence only because: "+what, "a matched instruction is left out of the block correspondence for an unlisted reason ("+shape(ifi.Cond, 0)+"): blocks whose only matched instruction is skipped are not compared, so exchanged branch arms can be reported as preserved")
+			}
+		}
+	}
+	r.Floor("C04.SUCC", "block correspondence built from matched instructions", n, 1)
 }
